@@ -65,6 +65,7 @@ def project_nuts(run, sc=None):
     search_err = False
     last_mom = None
     e0 = None
+    energies = {}
     for ev in run:
         k = ev["ev"]
         if k == "momentum":
@@ -72,6 +73,7 @@ def project_nuts(run, sc=None):
         elif k == "traj_init":
             in_draw = True
             e0 = f_from_bits(ev["e0"])
+            energies = {0: e0}      # trajectory index -> energy of the state the integrator reached there
             # the energy every weight and energy error of this trajectory is measured against is the energy of the start
             # point *with the momentum just drawn* (bit for bit)
             e0ok = True
@@ -95,14 +97,23 @@ def project_nuts(run, sc=None):
             maxe = (sc or {}).get("settings", {}).get("max_energy_error")
             if maxe is not None and ev.get("eerr"):
                 ee = f_from_bits(ev["eerr"])
+                # the error is measured against the energy the trajectory started with (not the previous point's):
+                # recomputed from the end point's energy and the trajectory's reference energy when both were recorded
+                if ev.get("energy") and e0 is not None and ev.get("why", "energy") == "energy":
+                    ee_ref = f_from_bits(ev["energy"]) - e0
+                    if ee_ref == ee_ref and e0 == e0 and not (ee_ref == ee or (ee != ee)):
+                        r["eeok"] = False
+                    if ev.get("e0") and f_from_bits(ev["e0"]) == f_from_bits(ev["e0"]) and f_from_bits(ev["e0"]) != e0:
+                        r["eeok"] = False
                 too_big = (ee > maxe) or not math.isfinite(ee)
                 if ev["res"] == "ok":
-                    r["eeok"] = not too_big
+                    r["eeok"] = r["eeok"] and not too_big
                 elif ev["res"] == "div" and ev.get("why") == "energy":
-                    r["eeok"] = too_big
+                    r["eeok"] = r["eeok"] and too_big
             if ev["res"] == "ok":
                 r.update({"end": ev["end"], "ph": ev["ph"], "logp": ev["logp"], "energy": ev["energy"],
                           "gh": ev.get("gh", "?")})
+                energies[ev["end"]] = f_from_bits(ev["energy"])
             out.append(r)
         elif k == "turn" and in_draw:
             out.append({"e": "turn", "k": ev["k"], "i": ev["i"], "j": ev["j"], "b": ev["b"], "hb": "na"})
@@ -117,6 +128,14 @@ def project_nuts(run, sc=None):
             except OverflowError:
                 pe = float("inf")
             ok = ok and (p is None and not math.isfinite(pe) or (p is not None and close(p, pe)))
+            # the weight of the merged tree is the sum of exp(-energy error) over the states it spans, with the energies
+            # the integrator reported for them (ties the multinomial weights to the real trajectory)
+            if e0 is not None and math.isfinite(e0) and all(i in energies for i in range(ev["lo"], ev["hi"] + 1)):
+                ds = [e0 - energies[i] for i in range(ev["lo"], ev["hi"] + 1)]
+                if all(math.isfinite(x) for x in ds) and math.isfinite(ls_n):
+                    m = max(ds)
+                    want = m + math.log(sum(math.exp(x - m) for x in ds))
+                    ok = ok and close(ls_n, want, rel=1e-9, abs_=1e-9)
             out.append({"e": "merge", "main": ev["main"], "acc": ev["acc"], "ge": ev["ge"], "depth": ev["depth"],
                         "lo": ev["lo"], "hi": ev["hi"], "draw": ev["draw"], "selfdraw": ev["self_draw"],
                         "otherdraw": ev["other_draw"], "pok": bool(ok)})
